@@ -9,7 +9,7 @@ n = int(sys.argv[1])
 jobs = [a.split(":", 1) for a in sys.argv[2:]]
 slots = queue.Queue()
 for i in range(n):
-    slots.put("b%d" % i)
+    slots.put("p%d_%d" % (os.getpid(), i))
 os.makedirs("/tmp/seedcheck/results", exist_ok=True)
 # freeze the harness sources so that edits under /verif/harness during the batch do not disturb it
 import shutil, time
